@@ -39,7 +39,7 @@ func init() {
 }
 
 func enumerate(tier string, emit func(string)) {
-	allFuncs() // snapshot the function tables before any case defines anything
+	allFuncs()             // snapshot the function tables before any case defines anything
 	enumerateB(tier, emit) // the small part first
 	enumerateA(tier, emit)
 }
